@@ -205,6 +205,8 @@ PSEUDO = [
     (b":protocol", b"websocket"),
     (b":unknown", b"u"),
     (b"x-regular", b"r"),
+    # regular headers that the implementation singles out for semantic checks of their own
+    (b"content-length", b"0"),
 ]
 
 
